@@ -831,6 +831,72 @@ func c16BothLists(c *mon.Ctx, ds *dnsScript) {
 	}
 }
 
+// c16SharedCache: one DNS cache behind two clients whose own lists differ. Each client's connections obey that
+// client's lists (and the cache's), whichever of the two dialled through the cache first.
+func c16SharedCache(c *mon.Ctx, ds *dnsScript) {
+	if c.Shard != 0 {
+		return
+	}
+	lg := &listenerLog{accepts: map[string]int{}}
+	var addrs []string
+	for _, a := range []string{"127.0.0.1:443", "127.0.0.1:8448"} {
+		l, err := startListener(a, lg)
+		if err != nil {
+			c.Note("shared-cache scenario: no listener on %s: %v", a, err)
+			continue
+		}
+		defer l.Close()
+		addrs = append(addrs, a)
+	}
+	if len(addrs) == 0 {
+		return
+	}
+	count := func() int {
+		lg.mu.Lock()
+		defer lg.mu.Unlock()
+		n := 0
+		for _, a := range addrs {
+			n += lg.accepts[a]
+		}
+		return n
+	}
+	all := []string{"0.0.0.0/0", "::/0"}
+	for i, firstStrict := range []bool{false, true, false} {
+		name := fmt.Sprintf("shared-cache%d.example", i)
+		c.Case("policy:shared-cache", map[string]any{"name": name, "strict_client_first": firstStrict, "addresses": []string{"127.0.0.1"}}, func() {
+			c.Nontrivial("shared-cache|" + name)
+			ds.mu.Lock()
+			ds.a[name] = []string{"127.0.0.1"}
+			ds.mu.Unlock()
+			cache := fclient.NewDNSCache(8, time.Minute, all, nil)
+			mk := func(strict bool) *fclient.Client {
+				deny := []string(nil)
+				if strict {
+					deny = []string{"127.0.0.0/8"}
+				}
+				return fclient.NewClient(fclient.WithDNSCache(cache), fclient.WithAllowDenyNetworks(all, deny), fclient.WithSkipVerify(true), fclient.WithWellKnownSRVLookups(true), fclient.WithTimeout(3*time.Second))
+			}
+			for round, strict := range []bool{firstStrict, !firstStrict, firstStrict} {
+				before := count()
+				ctx, cancel := context.WithTimeout(context.Background(), 3*time.Second)
+				_, _ = mk(strict).GetServerKeys(ctx, spec.ServerName(name))
+				cancel()
+				time.Sleep(30 * time.Millisecond)
+				made := count() > before
+				c.Count("shared_cache_requests")
+				if made && strict {
+					c.Failf("policy:shared-cache:connection-to-address-forbidden-by-client-lists", "two clients share one DNS cache; request %d, by the client that denies 127.0.0.0/8, made a TCP connection to 127.0.0.1 (the other client, which allows it, %s)", round+1, map[bool]string{true: "had not dialled yet", false: "had dialled before"}[round == 0])
+					return
+				}
+				if !made && !strict {
+					c.Failf("policy:shared-cache:no-connection-although-permitted", "two clients share one DNS cache; request %d, by the client that allows everything, made no connection to 127.0.0.1", round+1)
+					return
+				}
+			}
+		})
+	}
+}
+
 func policyClass(allow, deny []string) string {
 	bad := func(l []string) string {
 		for i, e := range l {
@@ -863,6 +929,7 @@ func runC16(c *mon.Ctx) {
 	c16Policy(c, ds)
 	c16WellKnownUnderPolicy(c, st, ds)
 	c16BothLists(c, ds)
+	c16SharedCache(c, ds)
 	c16ClientSequences(c)
 }
 
